@@ -193,9 +193,35 @@ def ops_of(tree, acc=None):
     return acc
 
 
+def has_guarded_pow(tree, guarded=False):
+    """True if a `**` sits in a position that short-circuit evaluation may skip (2nd/3rd operand of ?:, right operand of && ||)."""
+    k = tree[0]
+    if k == "bin":
+        if tree[1] == "**" and guarded:
+            return True
+        return has_guarded_pow(tree[2], guarded) or has_guarded_pow(tree[3], guarded or tree[1] in ("&&", "||"))
+    if k == "un":
+        return has_guarded_pow(tree[2], guarded)
+    if k == "asg":
+        return has_guarded_pow(tree[3], guarded)
+    if k == "tern":
+        return has_guarded_pow(tree[1], guarded) or has_guarded_pow(tree[2], True) or has_guarded_pow(tree[3], True)
+    if k == "comma":
+        return has_guarded_pow(tree[1], guarded) or has_guarded_pow(tree[2], guarded)
+    if k == "paren":
+        return has_guarded_pow(tree[1], guarded)
+    return False
+
+
 def report(run, ctx, env, tree, text, origin, b, h, ck, stderr=""):
     kind = "crash:" + ck if ck else ("missing" if b is None else ("value" if b.get("r") != h.get("r") else "side-effects"))
     ops = sorted(set(ops_of(tree)))
+    if not ck and b is not None and h.get("r") == "ERR" and b.get("r") != "ERR" and has_guarded_pow(tree):
+        # bash's exppower() raises "exponent less than 0" even while parsing an operand that short-circuit evaluation skips
+        # (there is no noeval guard there, unlike for division by zero). The property asks for short-circuit evaluation and for
+        # an error on negative exponents that are *evaluated*; an error from a skipped operand is a quirk of the reference.
+        run.count("bash_errors_on_negative_exponent_in_a_skipped_operand")
+        return
     if b is not None and h.get("r") == "ERR" and b.get("r") != "ERR":
         kind = "no-error-where-bash-errors"
     elif b is not None and b.get("r") == "ERR" and h.get("r") != "ERR":
